@@ -18,7 +18,7 @@ Because the model provably equals the specification whenever the pair rows satis
 (compact_ok, decided by the certified checker compact_okb), every disagreement on such an input is a
 failing input of the property.
 """
-import copy
+import json
 import warnings
 
 import numpy as np
@@ -794,6 +794,8 @@ def run(ctx):
         "data values are an abstract type in the theorems; a NaN-ignoring collapser is a function of the non-padding cells of a "
         "column; the floating-point evaluation of mean/std is compared numerically (1e-9 relative to the data magnitude)",
     ]
+    # report the smallest failing case of every signature (the library prints the first one)
+    ctx.failures.sort(key=lambda f: len(json.dumps(f.case, default=str)) if f.case is not None else 0)
     return ctx.finish(trusted_base=TRUSTED)
 
 
